@@ -69,6 +69,10 @@ CLAIMED = {
          "ExporterConc.tla models application, refresher, connection checker, peer and any number of closers as interleaved processes; TLC checks CloseOnce, NoWriteAfterClose, ReturnedMeansStopped, RefreshKnown, application order and the liveness CloseInvoked ~> CloseReturned on all interleavings (87 k / 14 k states). Real runs under -race: every datagram at a raw UDP peer must be, byte for byte, the next pending application message or a refresh of a known template; refresh completeness per interval, silence after the marker that follows the last Close, failing sends after a TCP peer close, goroutine leaks and race-detector reports are all trace events decided by TLC.",
          "Trusted: TLC, harness, race detector (schedules actually run), UDP loopback ordering, timing slack as stated.",
          "TLA+ ExporterConc spec (TLC exhaustive + liveness) + TLC trace validation of peer-observed datagrams and lifecycle events under -race"),
+ "C12": ("DESIGN.md §4 C12",
+         "CollectorConc.tla models per-connection readers, the unbuffered hand-off to the consumer, the clients map, Stop and the wait group; TLC checks PerConnOrder, ExactlyOnce, CountZero, AfterStop and the liveness Stop ~> returned on all interleavings (2-3 clients, reliable and lossy). Real runs under -race with 1-64 concurrent tcp/udp/tls clients (clean and abrupt closes, Stop during traffic, Stop right after start): write/deliver/stop/connection-count/leak observations and race-detector reports are trace events validated by TLC.",
+         "Trusted: TLC, harness logging discipline, race detector for the schedules run, goroutine-profile filter for leak detection.",
+         "TLA+ CollectorConc spec (TLC exhaustive + liveness) + TLC trace validation of concurrent real runs under -race"),
 }
 PENDING = {}
 
